@@ -172,6 +172,38 @@ def search(rep: C.Report, tier: str, broken):
                     if abs(got - want) > 1e-9 * sc:
                         viol("integrate is not exact on the Gauss-Chebyshev-Lobatto exactness class",
                              dict(info, weight_poly=u.coef.tolist(), got=float(got), want=float(want)), f"C16:integrate:{d}:{e}")
+    # integrate() must leave the object it was called on a valid representation of the same polynomial (it may change its basis, but then
+    # label and numbers have to agree): evaluate / integrate again / convert afterwards and compare with a fresh object
+    for M, N in ((4, 5), (7, 3)) if tier == "quick" else ((4, 5), (7, 3), (9, 7), (3, 9)):
+        g = _grid(M, N)
+        for d, e in (("z", False), ("z", True), ("pz", False), ("pp", True)):
+            n = len(g.getCompactCoordinates(e, d))
+            vals = np.array([r.uniform(-1, 1) for _ in range(n)])
+            for basis in ("Cardinal", "Chebyshev"):
+                def fresh():
+                    q = Polynomial(vals.copy(), g, "Cardinal", d, e)
+                    if basis == "Chebyshev":
+                        q.changeBasis("Chebyshev")
+                    return q
+                used = fresh()
+                used.integrate(weight=np.ones(n))
+                rep.case(key=("reuse-after-integrate", M, N, d, e, basis))
+                rep.count("reuse after integrate")
+                x = np.array([r.uniform(-0.9, 0.9) for _ in range(4)])
+                bad = []
+                ev_u = np.array([used.evaluate(np.array([t_])) for t_ in x])
+                ev_f = np.array([fresh().evaluate(np.array([t_])) for t_ in x])
+                if not np.allclose(ev_u, ev_f, rtol=1e-9, atol=1e-9):
+                    bad.append("evaluate")
+                if abs(used.integrate(weight=np.ones(n)) - fresh().integrate(weight=np.ones(n))) > 1e-9:
+                    bad.append("second integrate")
+                u2, f2 = used, fresh()
+                u2.changeBasis("Cardinal"), f2.changeBasis("Cardinal")
+                if not np.allclose(np.asarray(u2.coefficients), np.asarray(f2.coefficients), rtol=1e-9, atol=1e-9):
+                    bad.append("grid values after changeBasis('Cardinal')")
+                if bad:
+                    viol(f"after integrate() the same object no longer represents the same polynomial: {bad}",
+                         {"M": M, "N": N, "direction": d, "endpoints": e, "basis": basis, "differing": bad}, f"C16:reuse-after-integrate:{basis}")
     # multi-axis: operations along different axes act independently, commute and are linear
     for M, N in ((4, 5), (6, 3)) if tier == "quick" else ((4, 5), (6, 3), (9, 7), (3, 9)):
         g = _grid(M, N)
